@@ -29,8 +29,10 @@ TRUSTED_BASE = [
     "own clause",
     "SQLite avg over the evapotranspiration join, compared with the model meanET over Rat (1e-9)",
     "PyYAML dump/load of the output",
+    "translator tools/gen_formulas.py: the arithmetic of the named source functions (an expression, or a whole body of assignments, if and return) as Python's own `ast` parses it -> Lean terms over the carrier class in lean/FormulaTie/Gen*.lean; that each is the model's definition is re-checked by `rfl` / a short unfolding on every run (lean/FormulaTie/*.lean)",
 ]
 SQL_TIE = ('simulate_recession',)
+FORMULA_TIE = ('Simulate', 'Peatclsm', 'Spline')
 ASSUMPTIONS = ["ET >= 0 and curvature >= 0, not both zero; specific yield and transmissivity positive on the grid; "
                "grid below the transmissivity ceiling (highest spline knot / zeta_max)"]
 RULE = ("parameter sets of both kinds x (ET, curvature) including zero ET and zero curvature x increasing grids, through "
@@ -244,6 +246,33 @@ def run(ctx):
                 wit = {"why": "simulated column is not the recession curve on those levels"}
             elif abs(float(used["curvature_km"]) - curv * 1e-3) > 1e-15 or abs(float(used["mean_elapsed_time_d"]) - float(np.mean(measured_d))) > 1e-9:
                 wit = {"why": "curvature or mean passed to the curve differ from the dataset's"}
+            else:
+                # the unit conversions, bit for bit against the model's (Simulate.lean: curvatureKm, levelMm, perDay — the
+                # definitions lean/FormulaTie/Simulate.lean ties to the source text)
+                trp = params["transmissivity"]
+                peat = trp["type"] == "peatclsm"
+                probe = [float(z) for z in used["zeta_grid_mm"]][:6]
+                mu = ctx.driver.call("units.f", {
+                    "curvature_m_km2": f2h(float(curv)), "zeta_cm": [f2h(float(z) / 10) for z in levels],
+                    "Ksmacz0": f2h(float(trp["Ksmacz0"]) if peat else 1.0), "alpha": f2h(float(trp["alpha"]) if peat else 2.0),
+                    "zeta_max_cm": f2h(float(trp["zeta_max_cm"]) if peat else 1e6), "zs": [f2h(z) for z in probe]})
+                ctx.count("unit_conversions_compared_with_the_model")
+                same_units = h2f(mu["curvature_km"]) == float(used["curvature_km"]) and \
+                    [h2f(v) for v in mu["grid_mm"]] == [float(z) for z in used["zeta_grid_mm"]]
+                if same_units and peat:
+                    Tpd = used["transmissivity_m2_d"]
+                    for z, mv in zip(probe, mu["per_day"]):
+                        try:
+                            g = float(Tpd(z))
+                        except ValueError:
+                            g = "refused"
+                        if (mv == "refused") != (g == "refused") or (g != "refused" and abs(g - h2f(mv)) > 1e-12 * abs(h2f(mv))):
+                            same_units = False
+                if not same_units:
+                    ctx.corr_break(ob_cli, {"input": inp, "impl": {"curvature_km": float(used["curvature_km"]),
+                                                                    "grid_mm": [float(z) for z in used["zeta_grid_mm"]][:6]},
+                                            "model": {"curvature_km": h2f(mu["curvature_km"]), "grid_mm": [h2f(v) for v in mu["grid_mm"]][:6]},
+                                            "no_longer_checks": "the unit conversions of `simulate recession` are the model's (curvatureKm, levelMm, perDay)"})
         ctx.obligation(ob_cli, wit is None and abs(met - own) <= Fraction(1, 10**12) * max(1, own))
         if len(ctx.samples) < 2:
             ctx.sample({"et_used_mm_d": et_used, "rows": rows[:3]})
